@@ -137,9 +137,16 @@ def exec (f : Option Fault) : Prog α → Sys → Res α
 
 /-- which of the two `Store` calls of genRoot / genIntermediate comes first -/
 inductive Order
-  | keyFirst    -- the tree as it is now (ca.go:303-314, 369-377)
-  | certFirst   -- the order before commit e2c52cb
+  | keyFirst            -- the tree as it is now (ca.go genRoot / genIntermediate store the key first;
+                        -- loadOrGenIntermediate checks that the loaded key belongs to the certificate)
+  | keyFirstUnchecked   -- key first, the loaded intermediate pair is trusted as it is (before that check)
+  | certFirst           -- certificate first, pair trusted (before commit e2c52cb)
 deriving DecidableEq, Repr
+
+/-- does `loadOrGenIntermediate` compare the loaded key with the loaded certificate? -/
+def Order.checksPair : Order → Bool
+  | .keyFirst => true
+  | _ => false
 
 /-- the order in the current tree -/
 def codeOrder : Order := .keyFirst
@@ -162,6 +169,7 @@ def rootLife : Nat := 1000000000
 def storePair (ord : Order) (kKey kCrt : Key) (p : Pair) (e : Err) : Prog Pair :=
   match ord with
   | .keyFirst => .store kKey p.key (.fail e) (.store kCrt p.crt (.fail e) (.ret p))
+  | .keyFirstUnchecked => .store kKey p.key (.fail e) (.store kCrt p.crt (.fail e) (.ret p))
   | .certFirst => .store kCrt p.crt (.fail e) (.store kKey p.key (.fail e) (.ret p))
 
 /-- `genRoot` -/
@@ -200,7 +208,11 @@ def loadOrGenInt (ord : Order) (now life : Nat) (root : Pair) : Prog Pair :=
         match ik with
         | none => .fail .loadIntKey
         | some (.cert _ _ _) => .fail .decodeIntKey
-        | some (.key id) => .ret ⟨p, s, ra, id⟩
+        | some (.key id) =>
+          -- a key that does not belong to the certificate (an interrupted or half-failed
+          -- renewal leaves one) is not used: the intermediate is generated anew
+          if ord.checksPair && id != p then genInt ord now life root .genInt
+          else .ret ⟨p, s, ra, id⟩
 
 /-- per start-up parameters: the clock, and the configured intermediate lifetime minus the
     renewal window (`0` = a certificate that is inside its window as soon as it exists) -/
